@@ -191,6 +191,9 @@ def r23_resolution_table(ctx):
       'allS': lambda rx: _recipe(rx, ALL, MM, srq),
       'fcNo': lambda rx: _recipe(rx, FC, NOQ, default_cfg),
       'allBad': lambda rx: _recipe(rx, ALL, MM, bad),
+      # a specific-op rule whose config is NOT supported (it can sit in the store
+      # after the policy was replaced): resolution must still skip it
+      'fcBad': lambda rx: _recipe(rx, FC, MM, bad),
   }
   scopes = {'x/y;': None, 'y;': None, 'zz;': None}
   regexes = ['x', 'y', '^y', 'nomatch']
